@@ -33,3 +33,128 @@ Example nested_bounds_far_left :
   layer_child_max {| ix := -200; iy := -200; iw := 500; ih := 500 |} {| ix := -250; iy := 10; iw := 400; ih := 50 |}
   = {| ix := 50; iy := -210; iw := 500; ih := 500 |}.
 Proof. vm_compute. reflexivity. Qed.
+
+(* ------------------------------------------------------------------ extension round 4: masks on masks and stacks of group
+   effects to ANY depth (rationals), and the exact u8 mask chain of tiny-skia to any depth *)
+From RV Require Import Model.F32.
+From RV Require Import Model.Blend8.
+From RV Require Import Model.ClipMask.
+From RV Require Import Proofs.ByteSweep.
+From RV Require Import Proofs.ClipMask.
+From Flocq Require Import Core BinarySingleNaN.
+
+Local Open Scope Q_scope.
+Lemma unit_one : unit_q 1.
+Proof. unfold unit_q. split; discriminate. Qed.
+
+Fixpoint eval_mask_unit (m : mtree) : wf_mask m -> unit_q (eval_mask m).
+Proof.
+  destruct m as [c r [k|]]; cbn [wf_mask eval_mask]; intros (Hc & Hr & Hk).
+  - apply mask_factor_unit; [exact Hc|exact Hr|apply eval_mask_unit, Hk].
+  - apply mask_factor_unit; [exact Hc|exact Hr|apply unit_one].
+Qed.
+
+(* a mask with a mask never lets through more than either of them alone, nor more than its own region *)
+Lemma nested_mask_intersection : forall c r k, unit_q c -> unit_q r -> wf_mask k ->
+  eval_mask (MMask c r (Some k)) == eval_mask (MMask c r None) * eval_mask k /\
+  eval_mask (MMask c r (Some k)) <= eval_mask k /\
+  eval_mask (MMask c r (Some k)) <= eval_mask (MMask c r None) /\
+  eval_mask (MMask c r (Some k)) <= r.
+Proof.
+  intros c r k [C0 C1] [R0 R1] Hk. destruct (eval_mask_unit k Hk) as [K0 K1].
+  cbn [eval_mask]. unfold mask_factor. set (e := eval_mask k) in *. clearbody e.
+  assert (CR : 0 <= c * r /\ c * r <= 1) by (split; nra).
+  assert (CE : 0 <= c * e /\ c * e <= 1) by (split; nra).
+  destruct CR as [CR0 CR1]. destruct CE as [CE0 CE1].
+  split; [ring|]. split; [|split].
+  - set (cr := c * r) in *. clearbody cr. nra.
+  - set (cr := c * r) in *. clearbody cr. nra.
+  - setoid_replace (c * r * e) with (c * e * r) by ring. set (ce := c * e) in *. clearbody ce. nra.
+Qed.
+
+(* outside the mask rectangle of ANY level of the chain the target is transparent *)
+Fixpoint m_outside (m : mtree) : Prop :=
+  match m with MMask _ r n => r == 0 \/ match n with Some k => m_outside k | None => False end end.
+Fixpoint outside_any_mask_level (m : mtree) : m_outside m -> eval_mask m == 0.
+Proof.
+  destruct m as [c r [k|]]; cbn [m_outside eval_mask]; unfold mask_factor; intros [H|H].
+  - rewrite H. ring.
+  - rewrite (outside_any_mask_level k H). ring.
+  - rewrite H. ring.
+  - contradiction.
+Qed.
+
+(* any stack of unit factors (clip, mask, opacity of a group, of its parent, ...) only removes paint, and a longer stack
+   removes at least as much *)
+Lemma apply_factors_le : forall fs p, 0 <= p -> Forall unit_q fs -> 0 <= apply_factors p fs /\ apply_factors p fs <= p.
+Proof.
+  induction fs as [|f r IH]; intros p Hp H; unfold apply_factors; cbn [fold_left].
+  - split; [exact Hp|apply Qle_refl].
+  - inversion H as [|x l Hf Hr]; subst. destruct (apply_factor_le p f Hp Hf) as [A0 A1].
+    destruct (IH (apply_factor p f) A0 Hr) as [B0 B1]. unfold apply_factors in *. split; [exact B0|].
+    eapply Qle_trans; [exact B1|exact A1].
+Qed.
+Lemma apply_factors_app : forall p fs gs, apply_factors p (fs ++ gs) = apply_factors (apply_factors p fs) gs.
+Proof. intros. unfold apply_factors. apply fold_left_app. Qed.
+Lemma apply_factors_prefix : forall fs gs p, 0 <= p -> Forall unit_q fs -> Forall unit_q gs ->
+  apply_factors p (fs ++ gs) <= apply_factors p fs.
+Proof.
+  intros fs gs p Hp Hf Hg. rewrite apply_factors_app.
+  destruct (apply_factors_le fs p Hp Hf) as [A0 _]. apply (apply_factors_le gs _ A0 Hg).
+Qed.
+
+(* ---- exact u8 *)
+Local Open Scope Z_scope.
+Lemma trunc_me_nonneg' : forall m e, 0 <= trunc_me m e.
+Proof.
+  intros m e. unfold trunc_me. destruct e; [lia|apply Z.shiftl_nonneg; lia|apply Z.shiftr_nonneg; lia].
+Qed.
+Lemma ceil_u8_byte : forall x, is_byte (ceil_u8 x).
+Proof.
+  intro x. unfold is_byte, ceil_u8. destruct x as [s|s| |s m e H]; try lia.
+  - destruct s; lia.
+  - destruct s; [lia|]. pose proof (trunc_me_nonneg' m e).
+    destruct (match e with Z.neg p => Z.shiftl (trunc_me m e) (Z.pos p) =? Z.pos m | _ => true end); lia.
+Qed.
+Lemma scale_u8_byte : forall c m, is_byte c -> is_byte m -> is_byte (scale_u8 c m).
+Proof. intros c m Hc Hm. destruct (scale_u8_le c m Hc Hm) as [[A B] _]. unfold is_byte in *. lia. Qed.
+Lemma umask_coef_byte : forall lum r g b a rc, is_byte a -> is_byte rc -> is_byte (umask_coef lum r g b a rc).
+Proof.
+  intros lum r g b a rc Ha Hrc. unfold umask_coef, lum_mask_u8, alpha_mask_u8. destruct lum.
+  - apply ceil_u8_byte.
+  - apply scale_u8_byte; assumption.
+Qed.
+Lemma scale_u8_zero_l : forall m, is_byte m -> scale_u8 0 m = 0.
+Proof.
+  intros m Hm. assert (Z0 : is_byte 0) by (unfold is_byte; lia).
+  destruct (scale_u8_le 0 m Z0 Hm) as [[A B] _]. lia.
+Qed.
+Lemma umask_coef_outside : forall lum r g b a, is_byte r -> is_byte g -> is_byte b -> is_byte a -> umask_coef lum r g b a 0 = 0.
+Proof.
+  intros lum r g b a Hr Hg Hb Ha. unfold umask_coef.
+  rewrite (proj2 (scale_u8_full r Hr)), (proj2 (scale_u8_full g Hg)), (proj2 (scale_u8_full b Hb)), (proj2 (scale_u8_full a Ha)).
+  destruct lum; [exact (proj1 (proj2 white_luminance_is_full))|reflexivity].
+Qed.
+
+(* mask on mask on mask ...: the exact bytes only ever decrease *)
+Fixpoint umask_apply_le (m : umask) : forall c, umask_wf m -> is_byte c -> 0 <= umask_apply m c <= c.
+Proof.
+  destruct m as [lum r g b a rc [k|]]; intros c (Hr & Hg & Hb & Ha & Hrc & Hk) Hc; cbn [umask_apply].
+  - pose proof (umask_apply_le k c Hk Hc) as I.
+    assert (B : is_byte (umask_apply k c)) by (unfold is_byte in *; lia).
+    destruct (scale_u8_le _ _ B (umask_coef_byte lum r g b a rc Ha Hrc)) as [S _]. lia.
+  - destruct (scale_u8_le _ _ Hc (umask_coef_byte lum r g b a rc Ha Hrc)) as [S _]. exact S.
+Qed.
+
+(* ... and are exactly 0 where any level's mask rectangle has no coverage *)
+Fixpoint umask_outside_zero (m : umask) : forall c, umask_wf m -> is_byte c -> umask_outside m -> umask_apply m c = 0.
+Proof.
+  destruct m as [lum r g b a rc [k|]]; intros c (Hr & Hg & Hb & Ha & Hrc & Hk) Hc [O|O]; cbn [umask_apply].
+  - subst rc. rewrite umask_coef_outside by assumption.
+    pose proof (umask_apply_le k c Hk Hc) as I.
+    assert (B : is_byte (umask_apply k c)) by (unfold is_byte in *; lia).
+    apply (proj2 (scale_u8_full _ B)).
+  - rewrite (umask_outside_zero k c Hk Hc O). apply scale_u8_zero_l, umask_coef_byte; assumption.
+  - subst rc. rewrite umask_coef_outside by assumption. apply (proj2 (scale_u8_full c Hc)).
+  - contradiction.
+Qed.
